@@ -45,8 +45,16 @@ def main (_args : List String) : IO UInt32 := do
         match expectedSystem rest with
         | none => IO.println s!"MISMATCH {lineNo} precond-system unparsable"; nBad := nBad + 1
         | some exp =>
-          if exp == got then IO.println s!"ok {lineNo}"; nOk := nOk + 1
-          else IO.println s!"MISMATCH {lineNo} precond-system model={exp} library={got}"; nBad := nBad + 1
+          -- the model's verdict for a rejected call: the receiver and the system are unchanged (dump text and value)
+          -- the model's verdict for a rejected call: the VALUE of the receiver and of the system is unchanged; a
+          -- change of the dump text alone (a cache flag cleared before the check) is reported apart
+          let valueSame := kvGet rest "sem_same" == "1"
+          let dumpSame := kvGet rest "dump_same" == "1"
+          if exp != got then IO.println s!"MISMATCH {lineNo} precond-system model={exp} library={got}"; nBad := nBad + 1
+          else if exp != "none" && !valueSame then
+            IO.println s!"MISMATCH {lineNo} precond-system-unchanged model=unchanged library=changed"; nBad := nBad + 1
+          else if exp != "none" && !dumpSame then IO.println s!"ok-representation-only {lineNo}"; nOk := nOk + 1
+          else IO.println s!"ok {lineNo}"; nOk := nOk + 1
       else if dom == "poly" then
         match Op.ofString? opName with
         | none => IO.println s!"MISMATCH {lineNo} precond unknown-op {opName}"; nBad := nBad + 1
